@@ -26,8 +26,10 @@ func init() {
 		},
 		Run: runC14,
 		Mutants: []Mutant{
-			{Name: "dup-guard-per-tag", File: "bfe_config/bfe_route_conf/host_rule_conf/host_table_load.go", Old: "	for hostTag, hostnameList := range *config.Hosts {\n		for _, hostName := range *hostnameList {\n			// host name is case-insensitive\n			hostName = strings.ToLower(hostName)\n			if host2HostTag[hostName] != \"\" {\n				return conf, fmt.Errorf(\"host duplicate for %s\", hostName)\n			}", New: "	for hostTag, hostnameList := range *config.Hosts {\n		seen := make(map[string]bool)\n		for _, hostName := range *hostnameList {\n			// host name is case-insensitive\n			hostName = strings.ToLower(hostName)\n			if seen[hostName] {\n				return conf, fmt.Errorf(\"host duplicate for %s\", hostName)\n			}\n			seen[hostName] = true", Expect: "keyed-store"},
-			{Name: "host-case-fold-dropped", File: "bfe_config/bfe_route_conf/host_rule_conf/host_table_load.go", Old: "			hostName = strings.ToLower(hostName)\n", New: "			hostName = strings.TrimSpace(hostName)\n", Expect: "ordered-sink"},
+			{Name: "dup-guard-per-tag", File: "bfe_config/bfe_route_conf/host_rule_conf/host_table_load.go", Old: "	for hostTag, hostnameList := range *config.Hosts {\n		for _, hostName := range *hostnameList {\n			// host name is case-insensitive, and the host trie ignores\n			// the trailing dot of a fully qualified name\n			hostName = strings.TrimSuffix(strings.ToLower(hostName), \".\")\n			if host2HostTag[hostName] != \"\" {\n				return conf, fmt.Errorf(\"host duplicate for %s\", hostName)\n			}", New: "	for hostTag, hostnameList := range *config.Hosts {\n		seen := make(map[string]bool)\n		for _, hostName := range *hostnameList {\n			// host name is case-insensitive, and the host trie ignores\n			// the trailing dot of a fully qualified name\n			hostName = strings.TrimSuffix(strings.ToLower(hostName), \".\")\n			if seen[hostName] {\n				return conf, fmt.Errorf(\"host duplicate for %s\", hostName)\n			}\n			seen[hostName] = true", Expect: "keyed-store"},
+			{Name: "host-case-fold-dropped", File: "bfe_config/bfe_route_conf/host_rule_conf/host_table_load.go", Old: "			hostName = strings.TrimSuffix(strings.ToLower(hostName), \".\")\n", New: "			hostName = strings.TrimSuffix(strings.TrimSpace(hostName), \".\")\n", Expect: "ordered-sink"},
+			{Name: "host-trailing-dot-kept", File: "bfe_config/bfe_route_conf/host_rule_conf/host_table_load.go", Old: "			hostName = strings.TrimSuffix(strings.ToLower(hostName), \".\")\n", New: "			hostName = strings.ToLower(hostName)\n", Expect: "ordered-sink"},
+			{Name: "host-key-new-transformer", File: "bfe_route/host_table.go", Old: "		host = strings.ToLower(host)\n		product := conf.HostTagMap[tag]", New: "		host = strings.TrimSpace(strings.ToLower(host))\n		product := conf.HostTagMap[tag]", Expect: "ordered-sink"},
 			{Name: "vip-dup-guard-removed", File: "bfe_config/bfe_route_conf/vip_rule_conf/vip_table_load.go", Old: "			if _, ok := vipConf.VipMap[vip]; ok {\n				return vipConf, fmt.Errorf(\"vip duplicate for %s\", vip)\n			}\n", New: "", Expect: "keyed-store"},
 			{Name: "host-dup-guard-removed", File: "bfe_config/bfe_route_conf/host_rule_conf/host_table_load.go", Old: "			if host2HostTag[hostName] != \"\" {\n				return conf, fmt.Errorf(\"host duplicate for %s\", hostName)\n			}\n", New: "", Expect: "keyed-store"},
 			{Name: "tag-dup-guard-removed", File: "bfe_config/bfe_route_conf/host_rule_conf/host_table_load.go", Old: "			if _, ok := hostTag2Product[hostTag]; ok {\n				return conf, fmt.Errorf(\"hostTag duplicate for %s\", hostTag)\n			}\n", New: "", Expect: "keyed-store"},
@@ -169,13 +171,69 @@ var c14Reviewed = map[string]c14Exception{
 	"bfe_config/bfe_tls_conf/tls_rule_conf.ClientCALoad:keyed-store:clientCAMap": {reason: "stored only when the key is absent and the value is loaded from the CA named by the key itself, so every writer of a key stores an equal value"},
 }
 
-// hostLoaderFoldsCase: HostRuleConfLoad's duplicate test is applied to the lower-cased host name.
+// hostLoaderFoldsCase: the host trie is keyed by t(host) where t is the chain of string
+// transformers buildHostRoute applies to a configured host name. Every transformer of that
+// chain that is not injective (table below) must be mirrored by a normalisation HostRuleConfLoad
+// applies to the name before its duplicate test - otherwise two configured names collapse onto
+// one trie key and the map iteration order decides which one wins.
+var hostKeyTransformers = map[string]string{
+	"strings.ToLower":                 "strings.ToLower",       // folds case
+	"string_reverse.ReverseFqdnHost": "strings.TrimSuffix(.)", // reverses and drops one trailing dot (FQDN form)
+	"strings.Split":                   "",                      // injective
+}
+
 func hostLoaderFoldsCase(c *core.Ctx) (bool, string) {
+	// transformer chain of the builder
+	bd, bpk := c.P.FuncDecl("bfe_route", "buildHostRoute")
+	if bd == nil {
+		return false, "buildHostRoute not found"
+	}
+	need := map[string]bool{}
+	bad := ""
+	ast.Inspect(bd.Body, func(n ast.Node) bool {
+		call, isC := n.(*ast.CallExpr)
+		if !isC {
+			return true
+		}
+		fn := types.ExprString(call.Fun)
+		if _, isConv := bpk.TypesInfo.Types[call.Fun]; isConv && bpk.TypesInfo.Types[call.Fun].IsType() {
+			return true
+		}
+		// only calls that take (an expression containing) the loop's host variable
+		usesHost := false
+		for _, a := range call.Args {
+			ast.Inspect(a, func(m ast.Node) bool {
+				if id, isI := m.(*ast.Ident); isI && id.Name == "host" {
+					usesHost = true
+				}
+				return true
+			})
+		}
+		if !usesHost || strings.HasSuffix(fn, ".Set") {
+			return true
+		}
+		norm, known := hostKeyTransformers[fn]
+		if !known {
+			bad = fn
+			return true
+		}
+		if norm != "" {
+			need[norm] = true
+		}
+		return true
+	})
+	if bad != "" {
+		return false, "buildHostRoute derives the trie key through " + bad + ", which is not in the reviewed transformer table (is it injective?)"
+	}
+	if len(need) == 0 {
+		return false, "buildHostRoute no longer normalises the host name in a form the rule can follow"
+	}
 	fd, pk := c.P.FuncDecl("bfe_config/bfe_route_conf/host_rule_conf", "HostRuleConfLoad")
 	if fd == nil {
 		return false, "HostRuleConfLoad not found"
 	}
 	ok := false
+	missing := ""
 	ast.Inspect(fd.Body, func(n ast.Node) bool {
 		rs, isR := n.(*ast.RangeStmt)
 		if !isR {
@@ -186,20 +244,40 @@ func hostLoaderFoldsCase(c *core.Ctx) (bool, string) {
 			return true
 		}
 		vobj := pk.TypesInfo.ObjectOf(v)
-		// first statement(s): v = strings.ToLower(v) before any index by v
-		lowered := false
+		// leading statement(s) v = f(v): collect the normalisers applied before any index by v
+		have := map[string]bool{}
 		for _, st := range rs.Body.List {
 			if as, isA := st.(*ast.AssignStmt); isA && len(as.Lhs) == 1 && len(as.Rhs) == 1 {
 				if id, isI := as.Lhs[0].(*ast.Ident); isI && pk.TypesInfo.ObjectOf(id) == vobj {
-					if call, isC := as.Rhs[0].(*ast.CallExpr); isC && types.ExprString(call.Fun) == "strings.ToLower" && len(call.Args) == 1 && types.ExprString(call.Args[0]) == v.Name {
-						lowered = true
-						continue
-					}
+					ast.Inspect(as.Rhs[0], func(m ast.Node) bool {
+						call, isC := m.(*ast.CallExpr)
+						if !isC {
+							return true
+						}
+						switch types.ExprString(call.Fun) {
+						case "strings.ToLower":
+							have["strings.ToLower"] = true
+						case "strings.TrimSuffix":
+							if len(call.Args) == 2 {
+								if tv, okT := pk.TypesInfo.Types[call.Args[1]]; okT && tv.Value != nil && tv.Value.ExactString() == "\".\"" {
+									have["strings.TrimSuffix(.)"] = true
+								}
+							}
+						}
+						return true
+					})
+					continue
 				}
 			}
-			if lowered {
-				// a reject-duplicate test indexed by v follows
-				if ifs, isIf := st.(*ast.IfStmt); isIf && strings.Contains(types.ExprString(ifs.Cond), "["+v.Name+"]") && endsWithReturn(ifs.Body) {
+			if ifs, isIf := st.(*ast.IfStmt); isIf && strings.Contains(types.ExprString(ifs.Cond), "["+v.Name+"]") && endsWithReturn(ifs.Body) {
+				all := true
+				for k := range need {
+					if !have[k] {
+						all = false
+						missing = k
+					}
+				}
+				if all {
 					ok = true
 				}
 			}
@@ -208,7 +286,10 @@ func hostLoaderFoldsCase(c *core.Ctx) (bool, string) {
 		return true
 	})
 	if !ok {
-		return false, "HostRuleConfLoad does not lower-case the host name before its duplicate test"
+		if missing != "" {
+			return false, "HostRuleConfLoad's duplicate test does not apply " + missing + " to the host name although the trie key does: two configured names can collapse onto one key"
+		}
+		return false, "HostRuleConfLoad has no reject-duplicate test on the normalised host name"
 	}
 	return true, ""
 }
